@@ -284,8 +284,15 @@ def directed_fragment(draw, mm, max_atoms=5, perturb=True):
                                                  # hydrocarbon-class prefixes on whatever the molecule is (a C=O or C=N double bond
                                                  # is not an olefinic one)
                                                  ['olefinic', 'paraffinic', 'aromatic']))]
-        if ast['molprefix'][0] in ('cyclic', 'linear'):
-            pass
+        if draw(st.integers(0, 2)) == 0:
+            # several prefixes at once, in the order of the grammar (charge, class, ring): each one is a condition of its own
+            stack = []
+            if draw(st.booleans()):
+                stack.append(draw(st.sampled_from([charge, charge, 'neutral', 'positive', 'negative'])))
+            if draw(st.integers(0, 3)) > 0:
+                stack.append(draw(st.sampled_from(['olefinic', 'paraffinic', 'aromatic'])))
+            stack.append(draw(st.sampled_from(['cyclic' if mm.rings else 'linear', 'cyclic', 'linear'])))
+            ast['molprefix'] = stack
     if perturb and draw(st.integers(0, 2)) == 0:
         what = draw(st.sampled_from(['symbol', 'suffix', 'bond', 'constraint', 'prefix']))
         k = draw(st.integers(0, n - 1))
